@@ -526,6 +526,10 @@ void run_C17(void) {
         for (int v = 0; v < 5; v++) fftvec_case(ly, addmul, v, m, V_RANDOM, 0, 0);
   for (int fam = 0; fam < N_VFAM; fam++)
     for (unsigned rep = 0; rep < (th ? 2000u : 100u); rep++) element_case(fam, rep);
+  // dot products: every length 0..320 (one family per length), then every family on 0..64 and on the long lengths
+  for (int two = 0; two <= 1; two++)
+    for (int avx = 0; avx <= 1; avx++)
+      for (uint64_t n = 65; n <= 320; n++) dot_case(two, avx, n, (int)(n % N_VFAM), 7);
   // dot products: every length 0..64, 128, 1000
   for (int two = 0; two <= 1; two++)
     for (int avx = 0; avx <= 1; avx++)
